@@ -1,14 +1,16 @@
-\* leg A (quick): repaired design (prefer delivered reply; t.m section before closeOnce), code's retry policy
-SPECIFICATION FairSpec
+\* leg A thorough (C07/C08): everything together, safety
+SPECIFICATION Spec
 CONSTANTS
   NCalls = 2
   MaxDials = 2
   Policy = "code"
   MaxRetry = 2
+  AttemptBound = 4
   RandomSelect = FALSE
   LockInOnce = FALSE
-  MaxFaults = 1
-  Kinds = {"silent"}
+  Dev = {}
+  MaxFaults = 2
+  Kinds = {"eof", "silent"}
   OrderedStart = TRUE
   CancelCalls = {1}
   EnvTClose = TRUE
@@ -16,5 +18,5 @@ CONSTANTS
   WithHist = FALSE
 VIEW ViewNoHist
 INVARIANTS TypeOK FailOnlyWhen AttemptsBounded NoLoss ErrOnFault ClosedRejects CloseWakesAll ArmedIsShortWhenOwed OneAtATime IdleSound NoLockCycle
-PROPERTIES CallsEnd Released
+
 CHECK_DEADLOCK FALSE
